@@ -246,6 +246,7 @@ OBJS = {
         lambda: me.WildChoice(items=[me.GlobalThing(w=1), 5, me.Color.RED, AnyElement(qname="{urn:o}free", text="f"), DerivedElement(qname="{urn:e}n", value=7), DerivedElement(qname="{urn:o}slot", value=me.Slotted(id=1), type="{urn:e}slotted")], label="l"),
         "m_edge.WildChoice",
     ),
+    "owner": (lambda: me.Owner(pet=me.HouseDog(name="d", collar=me.Collar(color="blue"), bark=1), others=[me.HouseCat(name="c", lives=9), me.Pet(name="p", collar=me.Collar())]), "m_edge.Owner"),
     "attrmix": (lambda: me.AttrMix(id="i", lang="en", space="preserve", qualified=4, rest={"{urn:o}x": "1", "plain": "p"}, value=7), "m_edge.AttrMix"),
 }
 # objects whose annotations resolve only with SerializerConfig.globalns: serialized with that configuration only
@@ -483,6 +484,7 @@ JSON = {
     "js_blobs": ('{"blob": "aGVsbG8=", "hex": ["0102", ""], "numOrHex": "ABCD", "key": "aw==", "value": "FF"}', "m_edge.Blobs", None),
     "js_rated": ('{"rate": "1.5", "rates": ["2", "0"], "amount": "12.50", "scale": "1.0", "unit": 2.5}', "m_edge.Rated", None),
     "js_wildchoice": ('{"items": [{"w": 1}, 5, "red", {"qname": "{urn:o}free", "text": "f", "tail": null, "children": [], "attributes": {}}, {"qname": "{urn:e}n", "type": null, "value": 7}, {"qname": "{urn:o}slot", "type": "{urn:e}slotted", "value": {"id": 1, "v": [], "kid": null}}], "label": "l"}', "m_edge.WildChoice", None),
+    "js_owner": ('{"pet": {"name": "d", "bark": 1, "collar": {"color": "blue"}}, "other": [{"name": "c", "lives": 9, "collar": null}, {"name": "p", "collar": {"color": null}}]}', "m_edge.Owner", None),
     "js_attrmix": ('{"id": "i", "lang": "en", "space": null, "qualified": 4, "rest": {"{urn:o}x": "1", "plain": "p"}, "value": 7}', "m_edge.AttrMix", None),
     "js_noclass_thing_w": ('{"w": 5}', None, None),
     "js_noclass_thing_v": ('{"v": "only the local type has this"}', None, None),
@@ -505,6 +507,9 @@ BAD_JSON = {
     "bjs_syntax": ('{"id": 1,', "m_basic.Item", None),
     "bjs_missing_required": ('{"name": "j"}', "m_basic.Item", None),
     "bjs_empty": ("{}", None, None),
+    "bjs_owner_nested_unknown": ('{"pet": {"name": "d", "bark": 1, "collar": {"color": "blue", "size": 3}}, "other": []}', "m_edge.Owner", None),
+    "bjs_owner_base_nested_unknown": ('{"pet": null, "other": [{"name": "c", "lives": 9, "collar": {"color": "red", "tag": "t"}}]}', "m_edge.Owner", None),
+    "bjs_owner_nested_bad_value": ('{"pet": {"name": "d", "bark": "loud", "collar": {"color": "blue"}}, "other": []}', "m_edge.Owner", None),
 }
 
 # direct context lookups
